@@ -219,12 +219,111 @@ def check_paths(R, results, nbits, label, validate_budget):
     return reached
 
 
+def harness_readblock(st, nbits, nchans, nfiles):
+    from ..stack import make_filreader
+
+    def run(ctx):
+        r, N, ns, files = make_filreader(ctx, st, nbits, nchans, nfiles)
+        start, nsamps = z3.Int("start"), z3.Int("nsamps")
+        ctx.assume(nsamps >= 1)
+        inr = z3.And(start >= 0, start + nsamps <= N)
+        rec = OpRec()
+        rec.vars = dict(ns=ns, start=start, nsamps=nsamps)
+        c, t = z3.Int("c!sk"), z3.Int("t!sk")
+        try:
+            blk = r.read_block(SInt(start), SInt(nsamps))
+        except ValueError:
+            rec.outcomes.append(("raise", "ValueError"))
+            rec.viol.append(("read_block-rejected-in-range", inr))
+            return rec
+        except (IndexError, OSError, TypeError, AttributeError, KeyError) as e:
+            rec.outcomes.append(("raise", type(e).__name__))
+            rec.viol.append((f"read_block-unexpected-{type(e).__name__}", z3.BoolVal(True)))
+            return rec
+        d = blk.data
+        rec.outcomes.append(("ok", d.rows, d.cols))
+        rec.viol.append(("read_block-accepted-out-of-range", z3.Not(inr)))
+        rec.viol.append(("read_block-shape", z3.Or(d.rows != nchans, d.cols != nsamps)))
+        q = (start + t) * nchans + c
+        want = stream_unpacked(nbits, q) if nbits < 8 else stream_elem(DT[nbits], q)
+        rec.viol.append(("read_block-values", z3.And(inr, c >= 0, c < nchans, t >= 0, t < nsamps, d.fn(c, t) != want)))
+        hn = blk.header.nsamples
+        hn = hn.e if isinstance(hn, SInt) else z3.IntVal(hn)
+        rec.viol.append(("read_block-header-nsamples", hn != nsamps))
+        return rec
+    return run
+
+
+def check_rb(P, results, nbits, nchans, label, budget):
+    from ..concrete import c01 as conc
+    reached = 0
+    for ctx, rec in results:
+        Ctx.cur = ctx
+        conds = [c for _, c in rec.viol]
+        reached += 1
+        def params(extra=()):
+            if ctx.check(*extra) != z3.sat:
+                return None, None
+            m = ctx.solver.model()
+            ev = lambda t: m.eval(t, model_completion=True).as_long()
+            v = rec.vars
+            return dict(nbits=nbits, nchans=nchans, splits=[ev(n) for n in v["ns"]], start=ev(v["start"]), nsamps=ev(v["nsamps"]), seed=1), m
+        if ctx.check(z3.Or(conds)) == z3.unsat:
+            for name, _ in rec.viol:
+                P.obligation(f"{label}/{name}", "holds")
+        else:
+            for name, c in rec.viol:
+                if ctx.check(c) == z3.unsat:
+                    P.obligation(f"{label}/{name}", "holds")
+                    continue
+                pr, _ = params([c])
+                src = ("import sys, json\nfrom symx.concrete import c01\n"
+                       f"sys.exit(c01.main_block(json.loads({json.dumps(json.dumps(pr))})))\n")
+                P.violation(f"{label}-{name}".replace("/", "-").replace(":", "-"), f"{name} with {pr}", src, model=pr)
+        if budget[0] > 0:
+            pr, m = params()
+            if pr is not None:
+                budget[0] -= 1
+                out, bad = conc.run_block(pr)
+                o = rec.outcomes[0]
+                exp = (o[0], o[1]) if o[0] == "raise" else ("ok", [m.eval(x, model_completion=True).as_long() for x in o[1:]])
+                if tuple(out) != tuple(exp) and not bad:
+                    P.inconclusive_(f"path witness disagrees with the real code on {label}: {pr} symbolic={exp} real={out}")
+                else:
+                    P.validated()
+        Ctx.cur = None
+    return reached
+
+
+def work(P, item):
+    mode, nbits, nf, x, budget = item
+    if mode == "readblock":
+        from ..stack import build_filreader
+        st = build_filreader()
+        res, stt = explore(harness_readblock(st, nbits, x, nf), bound=4)
+        P.stats.add(stt)
+        P.reached += check_rb(P, res, nbits, x, f"read_block[nbits={nbits},nchans={x},files={nf}]", [budget])
+        return
+    st = build_fileio()
+    if mode == "step":
+        for i in range(nf):
+            for kind in OPS:
+                res, stt = explore(harness_step(st, nbits, nf, i, kind), bound=4)
+                P.stats.add(stt)
+                P.reached += check_paths(P, res, nbits, f"step[nbits={nbits},files={nf},i={i},{kind}]", [budget])
+    else:
+        for kinds in itertools.product(OPS, repeat=x):
+            res, stt = explore(harness_hist(st, nbits, nf, kinds, 0), bound=4)
+            P.stats.add(stt)
+            P.reached += check_paths(P, res, nbits, f"hist[nbits={nbits},files={nf},{'+'.join(kinds)}]", [budget])
+
+
 def run(R):
-    st = build_fileio(R)
+    build_fileio(R)
     quick = R.tier == "quick"
     depths = (8, 2, 32) if quick else (8, 1, 2, 4, 16, 32)
     nfiles_step = (1, 2, 3)
-    hist_len = 1 if quick else 2
+    hist_len = 1 if quick else 3
     hist_files = (1, 2) if quick else (1, 2, 3)
     R.bounds.update(dict(files="1..3", hdrlen=">=0 unbounded", datalen=">=1 unbounded (inductive step), >=0 with total>=1 (histories)",
                          depths=list(depths), step="arbitrary valid pre-state (file i, 0<=d<=datalen_i) + 1 op, all 4 op kinds, all i",
@@ -237,23 +336,25 @@ def run(R):
              "16/32-bit: data lengths, offsets and counts are multiples of the item size")
     R.out_of_claim("zero-length files in the inductive step", "partial trailing items of 16/32-bit files",
                    "histories longer than the unrolled bound are covered only through the inductive step")
-    budget = [20 if quick else 200]
-    total_reached = 0
+    items = []
     for nbits in depths:
         for nf in nfiles_step:
-            for i in range(nf):
-                for kind in OPS:
-                    res, stt = explore(harness_step(st, nbits, nf, i, kind), bound=4)
-                    R.stats.add(stt)
-                    total_reached += check_paths(R, res, nbits, f"step[nbits={nbits},files={nf},i={i},{kind}]", budget)
+            items.append(("step", nbits, nf, 0, 2 if quick else 10))
     for nbits in depths:
         for nf in hist_files:
-            for kinds in itertools.product(OPS, repeat=hist_len):
-                res, stt = explore(harness_hist(st, nbits, nf, kinds, 0), bound=4)
-                R.stats.add(stt)
-                total_reached += check_paths(R, res, nbits, f"hist[nbits={nbits},files={nf},{'+'.join(kinds)}]", budget)
-    R.vacuity_witness("c02-step+hist", total_reached > 0)
+            items.append(("hist", nbits, nf, hist_len, 2 if quick else 10))
+    from ..stack import build_filreader
+    build_filreader(R)
+    rb_cfg = [(8, 2), (2, 4), (32, 1)] if quick else [(8, 1), (8, 3), (1, 8), (2, 4), (4, 2), (16, 2), (32, 2)]
+    for nbits, nchans in rb_cfg:
+        for nf in (1, 2, 3):
+            items.append(("readblock", nbits, nf, nchans, 3 if quick else 20))
+    R.bounds["read_block"] = "start any integer, nsamps>=1 unbounded, N unbounded, 1..3 files, configs " + str(rb_cfg)
+    R.out_of_claim("read_block with nsamps <= 0", "read_block(fch1=..., nchans=...) channel sub-selection (see C08)")
+    parts = R.pmap(work, items)
+    R.vacuity_witness("c02-step+hist", sum(p.reached for p in parts) > 0)
     # vacuity twin: the final assertion False must be violated (pre-conditions satisfiable, assertion reached)
+    st = build_fileio()
     res, stt = explore(harness_hist(st, 8, 2, ("creadinto",), 0), bound=4)
     R.stats.add(stt)
     tw = 0
